@@ -79,14 +79,30 @@ def mk_scn(rng: random.Random, cls: str) -> dict:
         conns.append(c)
     f_rt = rng.choice(FACTORS)
     res = rng.choice(RESOLUTIONS)
+    if rng.random() < 0.3:
+        # a simulator whose setup_done takes a while: the real-time clock starts when stepping starts
+        rng.choice(sims)["beh"]["setup_dur"] = rng.choice([0.25, 1.25, 2.5]) * f_rt * res   # binary-exact: no float noise in the lateness arithmetic
     cfg = {"cache": rng.random() < 0.5, "lazy": rng.random() < 0.7, "rt_factor": f_rt, "time_resolution": res}
     scn: Dict[str, Any] = {"until": until, "sims": sims, "conns": conns, "config": cfg, "cls": cls}
     f = f_rt * res
     if cls == "events":
         # an event-based receiver of external events
         path = rng.choice([[0], [0, 0]]) if grouped else []
-        sims.append({"sid": "E", "type": "event-based", "path": path, "entities": ["e0"], "ins": {"i0": "trigger"},
-                     "outs": {"o0": "nonpersistent"}, "set_events": True, "beh": {"seed": 4, "p_out": 1.0}})
+        etyp = rng.choice(["event-based", "event-based", "event-based", "time-based", "hybrid"])
+        ebeh: Dict[str, Any] = {"seed": 4, "p_out": 1.0, "amplify": False}
+        if etyp != "event-based":
+            # a receiver with a regular schedule of its own (step size 2 or 3): events land between and on its steps
+            esize = rng.choice([2, 3])
+            ebeh["sizes"] = [esize]
+            if etyp == "hybrid":
+                ebeh["self_steps"] = {str(t): t + esize for t in range(0, 40)}
+        if rng.random() < 0.4:
+            # the receiver also schedules events for itself from inside step(): set_event(time + d)
+            ebeh["set_events"] = {"*": [-rng.choice([1, 2, 3])]}
+        sims.append({"sid": "E", "type": etyp, "path": path, "entities": ["e0"],
+                     "ins": {"i0": "trigger" if etyp != "time-based" else "nontrigger"},
+                     "outs": {"o0": "nonpersistent" if etyp == "event-based" else "persistent"}, "set_events": True,
+                     "beh": ebeh})
         if rng.random() < 0.5 and sims[0]["type"] != "time-based":
             conns.append({"src": "E", "se": "e0", "sa": "o0", "dst": sims[0]["sid"], "de": "e0", "da": "i0"})
         inj = []
@@ -191,6 +207,10 @@ def judge(scn: dict, tr: dict) -> List[dict]:
         fired = any(e.get("op") == "inject" and e["t"] == inj["t"] for e in tr["events"])
         if not fired:
             continue     # the run ended before the instant tau
+        inj_i = next(e["i"] for e in tr["events"] if e.get("op") == "inject" and e["t"] == inj["t"])
+        if any(e.get("op") == "call" and e.get("kind") == "step" and e["sid"] == inj["sid"] and e["time"] >= inj["t"]
+               and e["i"] < inj_i for e in tr["events"]):
+            continue     # the receiver had already reached t on its own schedule: t is not a future time for it
         if inj["t"] < scn["until"]:
             if ret is None or not ret.get("ok"):
                 out.append({"kind": "set_event_failed", "t": inj["t"], "tau": inj["tau"], "result": ret})
@@ -202,6 +222,19 @@ def judge(scn: dict, tr: dict) -> List[dict]:
                 out.append({"kind": "event_after_end_caused_a_step", "t": inj["t"]})
             if not any("after simulation end" in l["msg"] for l in tr["logs"]):
                 out.append({"kind": "event_after_end_without_warning", "t": inj["t"]})
+    # (e2) events a simulator sets for itself from inside step()
+    if o["kind"] == "ok":
+        for e in tr["events"]:
+            if e.get("op") == "async" and e.get("kind") == "set_event":
+                if e["t"] < scn["until"] and e["t"] > e["time"]:
+                    n_st = sum(1 for e2 in tr["events"] if e2.get("op") == "call" and e2.get("kind") == "step"
+                               and e2["sid"] == e["sid"] and e2["time"] == e["t"])
+                    injected_too = any(e2.get("op") == "inject" and e2["sid"] == e["sid"] and e2["t"] == e["t"]
+                                       for e2 in tr["events"])
+                    if n_st < 1 or (n_st > 1 and not injected_too):
+                        out.append({"kind": "event_set_inside_step_did_not_cause_exactly_one_step", "sid": e["sid"],
+                                    "set_at": e["time"], "t": e["t"], "steps_at_t": n_st})
+                        break
     return out
 
 
